@@ -1,4 +1,5 @@
 import PoorModel.Session
+import PoorModel.Base64
 namespace Poor.Drv.Session
 open Poor Poor.Session
 
@@ -31,6 +32,18 @@ def handle : List String → String
         (s', if op == .header then acc.2 ++ [showAttrs s'.attrs] else acc.2)) (St.init cfg, [])
       if outs.isEmpty then "-" else String.intercalate " | " outs
     | _, _, _, _ => "bad-op"
+  | ["b64e", x] =>
+    match hexDecode x with
+    | some b => strEncode (Poor.Base64.encode b)
+    | none => "bad-op"
+  | ["b64d", x] =>
+    match hexDecode x with
+    | some b =>
+      -- the argument is the byte string handed to `b64decode`
+      (match Poor.Base64.decode (b.map fun u => Char.ofNat u.toNat) with
+       | some r => "ok " ++ hexEncode r
+       | none => "Error")
+    | none => "bad-op"
   | _ => "bad-op"
 
 end Poor.Drv.Session
